@@ -789,4 +789,276 @@ theorem diagflat_inBounds (s : Shape) (hs : Pos s) (k : Int) (v : IxView) (hv : 
 example : (diagflatView [2, 2] (-1)).map (fun v => (v.dst, v.map [1, 0], v.map [4, 3], v.map [2, 2])) =
     some ([5, 5], some [0, 0], some [1, 1], none) := by decide
 
+/-! ### sliding_window (scalar window on one axis — NumPy `sliding_window_view(a, w, axis=k)`: extent `e - w + 1` on the
+    axis, a trailing window axis of extent `w`, `out[i…, o] = a[i with i[k] + o]`).  Window lists / axis lists / axis None
+    are under correspondence only (PARTIAL). -/
+
+theorem slidingWindow_shape (s : Shape) (w : Nat) (axis : Int) (k e : Nat) (hk : normalizeAxis1 axis s.length = some k)
+    (he : s[k]? = some e) :
+    ∃ v, slidingWindowView s [w] (some [axis]) true = some v ∧ v.src = s ∧
+      v.dst = replaceExtent s k (e - (w - 1)) ++ [w] := by
+  have hkn := (normalizeAxis1_some axis _ k hk).1
+  simp [slidingWindowView, shapeSlidingWindow, hk, shrinkAxes, he, replaceExtent_eq_set s k _ hkn]
+
+theorem slidingWindow_elem (s : Shape) (w : Nat) (axis : Int) (k : Nat) (hk : normalizeAxis1 axis s.length = some k)
+    (v : IxView) (hv : slidingWindowView s [w] (some [axis]) true = some v)
+    (i : Idx) (o x : Nat) (hi : i.length = s.length) (hx : i[k]? = some x) :
+    v.map (i ++ [o]) = some (i.set k (x + o)) := by
+  obtain ⟨hkn, hpos⟩ := normalizeAxis1_some axis _ k hk
+  simp only [slidingWindowView, shapeSlidingWindow, List.mapM_cons, List.mapM_nil, hk, Option.pure_def,
+    Option.bind_eq_bind, Option.bind_some, Option.map_some, Option.some.injEq] at hv
+  subst hv
+  have ht : (i ++ [o]).take s.length = i := by rw [← hi]; simp
+  have hdr : (i ++ [o]).drop s.length = [o] := by rw [← hi]; simp
+  simp only [indexSlidingWindow, ht, hdr, addWindowOffsets, atPy, hi, hpos, Option.bind_some, hx, setPy]
+  simp
+
+theorem slidingWindow_inBounds (s : Shape) (w : Nat) (axis : Int) (k e : Nat) (hk : normalizeAxis1 axis s.length = some k)
+    (he : s[k]? = some e) (hw1 : 1 ≤ w) (hw2 : w ≤ e)
+    (v : IxView) (hv : slidingWindowView s [w] (some [axis]) true = some v) : v.InBounds := by
+  have hkn := (normalizeAxis1_some axis _ k hk).1
+  obtain ⟨u, hu, h1, h2⟩ := slidingWindow_shape s w axis k e hk he
+  rw [hv] at hu; simp only [Option.some.injEq] at hu; subst hu
+  intro d hd r hr
+  rw [h2] at hd
+  rw [h1]
+  rw [inShape_append_iff] at hd
+  obtain ⟨hd1, hd2⟩ := hd
+  have hlen : (replaceExtent s k (e - (w - 1))).length = s.length := by
+    rw [replaceExtent_eq_set s k _ hkn]; simp
+  rw [hlen] at hd1 hd2
+  -- d = i ++ [o]
+  have hdl := hd1.length_eq
+  have hdl2 := hd2.length_eq
+  simp only [List.length_take, List.length_drop, hlen, List.length_singleton] at hdl hdl2
+  match hdr : d.drop s.length, hd2 with
+  | [o], hd2 =>
+    have hsplit : d = d.take s.length ++ [o] := by rw [← hdr, List.take_append_drop]
+    obtain ⟨x, hx, hxm, hd1'⟩ := coord_of_inShape hkn hd1
+    rw [hsplit, slidingWindow_elem s w axis k hk v hv (d.take s.length) o x (by simp; omega) hx] at hr
+    simp only [Option.some.injEq] at hr
+    subst hr
+    have ho : o < w := by simpa [InShape] using hd2
+    have e1 : s[k] = e := by simpa [hkn] using he
+    exact inShape_set_of_set hd1' hkn (by omega)
+
+example : (slidingWindowView [2, 4] [2] (some [-1]) true).map (fun v => (v.dst, v.map [1, 2, 1])) =
+    some ([2, 3, 2], some [1, 3]) := by decide
+
+/-! ### split into `N` equal sections along axis `k` (NumPy `np.split(a, N, axis=k)`, `N ∣ extent`): `N` parts of
+    extent `n / N`, part `i` reads `a[…, x + i·(n/N), …]`.  Index-list splits are under correspondence only (PARTIAL);
+    cut points beyond the extent are a known finding (split.index-beyond-extent). -/
+
+theorem split_parts (s : Shape) (N k n : Nat) (hn : s[k]? = some n) :
+    ∃ ps, splitViews s (some N) [] (k : Int) = some ps ∧ ps.length = N := by
+  have : ¬ ((k : Int) < 0) := by omega
+  simp [splitViews, hn, splitBoundsSections]
+
+theorem split_elem (s : Shape) (N k n : Nat) (hn : s[k]? = some n) (hdiv : N ∣ n) (ps : List IxView)
+    (hps : splitViews s (some N) [] (k : Int) = some ps) (i : Nat) (v : IxView) (hv : ps[i]? = some v) :
+    i < N ∧ v.src = s ∧ v.dst = replaceExtent s k (n / N) ∧
+      ∀ d x, d[k]? = some x → v.map d = some (d.set k (x + i * (n / N))) := by
+  have hk : k < s.length := by
+    rcases Nat.lt_or_ge k s.length with h | h
+    · exact h
+    · simp [List.getElem?_eq_none h] at hn
+  simp only [splitViews, Int.natCast_nonneg, ge_iff_le, if_true, Int.toNat_natCast, hn, splitBoundsSections,
+    List.map_map, Option.some.injEq] at hps
+  subst hps
+  simp only [List.getElem?_map, List.getElem?_range, Option.map_eq_some_iff] at hv
+  obtain ⟨j, hj, hv⟩ := hv
+  have hjr := List.getElem?_eq_some_iff.1 hj
+  obtain ⟨hlt, hji⟩ := hjr
+  simp only [List.length_range] at hlt
+  simp only [List.getElem_range] at hji
+  subst hji
+  subst hv
+  refine ⟨hlt, rfl, ?_, ?_⟩
+  · simp only [Function.comp]
+    rw [replaceExtent_eq_set s k _ hk]
+    congr 1
+    -- (i+1)·r ≤ n, so the clamp is inactive
+    obtain ⟨c, rfl⟩ := hdiv
+    have hN : 0 < N := by omega
+    have hr : N * c / N = c := Nat.mul_div_cancel_left c hN
+    rw [hr]
+    have : i * c + c ≤ N * c := by
+      have : (i + 1) * c ≤ N * c := Nat.mul_le_mul_right c (by omega)
+      simpa [Nat.add_mul] using this
+    omega
+  · intro d x hx
+    simp [Function.comp, hx]
+
+theorem split_inBounds (s : Shape) (N k n : Nat) (hn : s[k]? = some n) (hdiv : N ∣ n) (ps : List IxView)
+    (hps : splitViews s (some N) [] (k : Int) = some ps) (i : Nat) (v : IxView) (hv : ps[i]? = some v) : v.InBounds := by
+  have hk : k < s.length := by
+    rcases Nat.lt_or_ge k s.length with h | h
+    · exact h
+    · simp [List.getElem?_eq_none h] at hn
+  obtain ⟨hi, h1, h2, hm⟩ := split_elem s N k n hn hdiv ps hps i v hv
+  intro d hd r hr
+  rw [h2] at hd
+  rw [h1]
+  obtain ⟨x, hx, hxm, hd'⟩ := coord_of_inShape hk hd
+  rw [hm d x hx] at hr
+  simp only [Option.some.injEq] at hr
+  subst hr
+  have e1 : s[k] = n := by simpa [hk] using hn
+  apply inShape_set_of_set hd' hk
+  obtain ⟨c, rfl⟩ := hdiv
+  have hN : 0 < N := by omega
+  have hr : N * c / N = c := Nat.mul_div_cancel_left c hN
+  rw [hr] at hxm ⊢
+  have : (i + 1) * c ≤ N * c := Nat.mul_le_mul_right c (by omega)
+  have : i * c + c ≤ N * c := by simpa [Nat.add_mul] using this
+  omega
+
+example : (splitViews [2, 6] (some 3) [] 1).map (fun ps => ps.map (fun v => (v.dst, v.map [1, 1]))) =
+    some [([2, 2], some [1, 1]), ([2, 2], some [1, 3]), ([2, 2], some [1, 5])] := by decide
+
+/-! ### stack / hstack / vstack / dstack / column_stack = concatenate of the two operands reshaped to a promoted shape
+    (`joinReshaped a b a' b' axis`).  Reshaping keeps the flat (C-order) position, so the element theorems of
+    concatenate carry over through `joinReshaped_elem_flat`; no read leaves either operand, whatever the promotion. -/
+
+/-- the joined view has the shape of the concatenation of the promoted shapes and reads, from the same operand, the
+    element with the same FLAT position as the concatenation reads from the promoted operand -/
+theorem joinReshaped_elem_flat (a b a' b' : Shape) (axis : Int) (ha : Pos a) (hb : Pos b)
+    (hpa : prod a' = prod a) (hpb : prod b' = prod b)
+    (c : IxView2) (hc : concatenateView a' b' (some axis) = some c) (hcb : c.InBounds)
+    (v : IxView2) (hv : joinReshaped a b a' b' axis = some v) (d : Idx) (hd : InShape d c.dst)
+    (fl : Bool) (i : Idx) (hi : c.map d = some (fl, i)) :
+    v.dst = c.dst ∧ ∃ j, v.map d = some (fl, j) ∧
+      (if fl then InShape j b ∧ computeOffset j (strides b) = computeOffset i (strides b')
+       else InShape j a ∧ computeOffset j (strides a) = computeOffset i (strides a')) := by
+  have hsrc : c.srcA = a' ∧ c.srcB = b' := by
+    simp only [concatenateView, Option.some.injEq] at hc; subst hc; exact ⟨rfl, rfl⟩
+  have hin := hcb d hd fl i hi
+  simp only [joinReshaped, hc, Option.map_some, Option.some.injEq] at hv
+  subst hv
+  refine ⟨rfl, ?_⟩
+  cases fl with
+  | true =>
+    simp only [if_true] at hin ⊢
+    rw [hsrc.2] at hin
+    refine ⟨reshapeIdx b b' i, by simp [hi], indices_inShape hb _, ?_⟩
+    exact offset_indices hb (by rw [← hpb]; exact offset_lt hin)
+  | false =>
+    simp only [Bool.false_eq_true, if_false] at hin ⊢
+    rw [hsrc.1] at hin
+    refine ⟨reshapeIdx a a' i, by simp [hi], indices_inShape ha _, ?_⟩
+    exact offset_indices ha (by rw [← hpa]; exact offset_lt hin)
+
+/-- positive extents: a joined view never reads outside its operands (covers all five stack routines) -/
+theorem joinReshaped_inBounds (a b a' b' : Shape) (axis : Int) (ha : Pos a) (hb : Pos b)
+    (v : IxView2) (hv : joinReshaped a b a' b' axis = some v) : v.InBounds := by
+  simp only [joinReshaped, concatenateView, Option.map_some, Option.some.injEq] at hv
+  subst hv
+  intro d _ fl i hi
+  simp only [Option.map_eq_some_iff] at hi
+  obtain ⟨p, _, hp⟩ := hi
+  simp only [Prod.mk.injEq] at hp
+  obtain ⟨rfl, rfl⟩ := hp
+  cases p.1 with
+  | true => simp only [if_true]; exact indices_inShape hb _
+  | false => simp only [Bool.false_eq_true, if_false]; exact indices_inShape ha _
+
+/-- the promotions are NumPy's: `vstack` → `atleast_2d` (row), `dstack` → `atleast_3d`, `column_stack` → column;
+    each keeps the number of elements (so `joinReshaped_elem_flat` applies) -/
+theorem promote_prod (s : Shape) : prod (promoteV s) = prod s ∧ prod (promoteD s) = prod s ∧ prod (promoteC s) = prod s := by
+  refine ⟨?_, ?_, ?_⟩
+  · unfold promoteV; split <;> simp [prod]
+  · unfold promoteD; split <;> simp [prod]
+  · unfold promoteC; split <;> simp [prod]
+
+theorem expandDims_prod (s : Shape) (axis : Int) (s' : Shape) (h : shapeExpandDims s axis = some s') : prod s' = prod s := by
+  simp only [shapeExpandDims, Option.map_eq_some_iff] at h
+  obtain ⟨k, _, rfl⟩ := h
+  have : s.take k ++ 1 :: s.drop k = s.take k ++ ([1] ++ s.drop k) := by simp
+  rw [this, prod_append, prod_append, ← List.take_append_drop k s, prod_append]
+  simp [prod]
+
+/-- hstack is concatenate along axis 0 (rank-1 left operand) or 1, elementwise -/
+theorem hstack_is_concatenate (a b : Shape) (ha : Pos a) (hb : Pos b) (k : Nat) (hk : k = if a.length = 1 then 0 else 1)
+    (h : ConcatCompatible a b k) (c : IxView2) (hc : concatenateView a b (some (k : Int)) = some c)
+    (v : IxView2) (hv : hstackView a b = some v) (d : Idx) (hd : InShape d c.dst) :
+    v.dst = c.dst ∧ v.map d = c.map d := by
+  have hax : (if a.length = 1 then (0 : Int) else 1) = (k : Int) := by subst hk; split <;> rfl
+  simp only [hstackView, hax] at hv
+  have hcb := concatenate_inBounds a b k h c hc
+  obtain ⟨x, aa, hx, haa, hm⟩ := concatenate_elem a b k h c hc d hd
+  have hsrc : c.srcA = a ∧ c.srcB = b := by
+    simp only [concatenateView, Option.some.injEq] at hc; subst hc; exact ⟨rfl, rfl⟩
+  by_cases hlt : x < aa
+  · simp only [hlt, if_true] at hm
+    obtain ⟨h1, j, hj, hfl⟩ := joinReshaped_elem_flat a b a b (k : Int) ha hb rfl rfl c hc hcb v hv d hd false d hm
+    simp only [Bool.false_eq_true, if_false] at hfl
+    have hin := hcb d hd false d hm
+    simp only [Bool.false_eq_true, if_false, hsrc.1] at hin
+    have : j = d := offset_injective hfl.1 hin hfl.2
+    subst this
+    exact ⟨h1, by rw [hj, hm]⟩
+  · simp only [hlt, if_false] at hm
+    obtain ⟨h1, j, hj, hfl⟩ := joinReshaped_elem_flat a b a b (k : Int) ha hb rfl rfl c hc hcb v hv d hd true _ hm
+    simp only [if_true] at hfl
+    have hin := hcb d hd true _ hm
+    simp only [if_true, hsrc.2] at hin
+    have : j = d.set k (x - aa) := offset_injective hfl.1 hin hfl.2
+    subst this
+    exact ⟨h1, by rw [hj, hm]⟩
+
+example : (stackView [2] [2] 1).map (fun v => (v.dst, v.map [1, 0], v.map [1, 1])) =
+    some ([2, 2], some (false, [1]), some (true, [1])) := by decide
+example : (vstackView [3] [2, 3]).map (fun v => (v.dst, v.map [0, 2], v.map [2, 1])) =
+    some ([3, 3], some (false, [2]), some (true, [1, 1])) := by decide
+
+/-! ### diagonal — PARTIAL: proved for a matrix (rank 2, axes (0,1)) and `0 ≤ offset ≤ columns`.
+    Full statement (not proved): for every rank, accepted axis pair `a1 ≠ a2` and offset with a non-negative diagonal
+    length, `dst = others ++ [min(s[a1] + min(off,0), s[a2] - max(off,0))]` and `out[o…, j] = a[o… with a1 ↦ j - min(off,0),
+    a2 ↦ j + max(off,0)]`.  The unchanged code violates it for `offset < 0` and for offsets beyond the extent
+    (`diagonal_negative_offset_counterexample`, `diagonal_offset_beyond_extent_counterexample`). -/
+
+theorem diagonal2d_shape_partial (n1 n2 off : Nat) (h : off ≤ n2) :
+    ∃ v, diagonalView [n1, n2] (off : Int) 0 1 = some v ∧ v.src = [n1, n2] ∧ v.dst = [min n1 (n2 - off)] := by
+  have e1 : ¬ ((off : Int) < 0) := by omega
+  have hval : i2u (if (n1 : Int) < (if 0 < off then (n2 : Int) - off else n2) then (n1 : Int)
+      else (if 0 < off then (n2 : Int) - off else n2)) = min n1 (n2 - off) := by
+    rw [i2u_of_nonneg _ (by split <;> split <;> omega)]
+    split <;> split <;> omega
+  simp [diagonalView, normalizeAxis1, shapeDiagonal, othersAux, e1, hval]
+
+theorem diagonal2d_elem_partial (n1 n2 off : Nat) (v : IxView)
+    (hv : diagonalView [n1, n2] (off : Int) 0 1 = some v) (j : Nat) : v.map [j] = some [j, j + off] := by
+  simp only [diagonalView, normalizeAxis1, shapeDiagonal] at hv
+  simp at hv
+  subst hv
+  have : i2u ((j : Int) + (off : Int)) = j + off := by
+    rw [i2u_of_nonneg _ (by omega)]; omega
+  simp [indexDiagonal, scatterOthers, this]
+
+theorem diagonal2d_inBounds_partial (n1 n2 off : Nat) (h : off ≤ n2) (v : IxView)
+    (hv : diagonalView [n1, n2] (off : Int) 0 1 = some v) : v.InBounds := by
+  obtain ⟨w, hw, h1, h2⟩ := diagonal2d_shape_partial n1 n2 off h
+  rw [hv] at hw; simp only [Option.some.injEq] at hw; subst hw
+  intro d hd i hi
+  rw [h2] at hd
+  rw [h1]
+  match d, hd with
+  | [j], hd =>
+    rw [diagonal2d_elem_partial n1 n2 off v hv j] at hi
+    simp only [Option.some.injEq] at hi
+    subst hi
+    simp only [InShape] at hd ⊢
+    have := hd.1
+    refine ⟨by omega, by omega, trivial⟩
+
+/-- negative offset: `diagonal([[…],[…]], offset=-1)` on shape (2,1) must read `a[1,0]`; the code addresses `(0, 0-1)` -/
+theorem diagonal_negative_offset_counterexample :
+    (diagonalView [2, 1] (-1) 0 1).bind (·.map [0]) ≠ some [1, 0] := by decide
+
+/-- offset beyond the extent: NumPy's diagonal is empty (extent 0); the code stores `-1` into a `size_t` extent -/
+theorem diagonal_offset_beyond_extent_counterexample :
+    (diagonalView [1, 1] 2 0 1).map (·.dst) ≠ some [0] := by decide
+
+example : (diagonalView [3, 4] 1 0 1).map (fun v => (v.dst, v.map [2])) = some ([3], some [2, 3]) := by decide
+
 end NmVerif.Props.C04
